@@ -530,5 +530,40 @@ pub fn record(args: &Args) {
             }
         }
     }
+    // games FULL OF EXACT TIES (matching pennies, rock-paper-scissors, all payoffs equal): after the first iteration every
+    // regret is exactly zero in any order of summation, so how a tie is broken is the same deterministic rule in both
+    // code paths - two iterations (all arithmetic still exact)
+    if !hung {
+        for (name, tg) in zoo::all().into_iter().filter(|(n, _)| ["pennies", "rps", "flat"].contains(&n.as_str())) {
+            for meth in ["Full", "Sampled"] {
+                if only.map_or(false, |o| o != meth) {
+                    continue;
+                }
+                for preset in ["vanilla", "lcfr", "cfr_plus", "dcfr", "dcfr_prune"] {
+                    let sd = seed.wrapping_mul(19).wrapping_add(5);
+                    let iters = 2;
+                    let Ok(one) = thresholded(&tg, meth, preset, 1, iters, 0.0, sd) else { continue };
+                    for &k in &[2usize, 3] {
+                        match thresholded(&tg, meth, preset, k, iters, 0.0, sd) {
+                            Err(msg) => cmp.line(&json!({"status": "violation", "game": name, "method": meth, "k": k, "T": iters,
+                                "mismatch": [{"class": "panic", "what": "solve failed or panicked with several threads (tie game)", "observed": msg}]})),
+                            Ok((_, dense, bounds)) => {
+                                runs += 1;
+                                let d = max_diff(&dense, &one.1);
+                                let db = (0..2).map(|p| (bounds[p] - one.2[p]).abs() / one.2[p].abs().max(1.0)).fold(0.0, f64::max);
+                                if d > 1e-9 || db > 1e-9 || d.is_nan() || db.is_nan() {
+                                    cmp.line(&json!({"status": "violation", "game": name, "method": meth, "preset": preset, "k": k, "T": iters,
+                                        "mismatch": [{"class": "differs", "what": "result with several threads differs from one thread (game full of exact ties)",
+                                            "max_probability_difference": d, "max_bound_difference": db}], "seed": sd}));
+                                } else {
+                                    cmp.line(&json!({"status": "ok", "game": name, "method": meth, "preset": preset, "k": k, "T": iters, "nontrivial": true}));
+                                }
+                            }
+                        }
+                    }
+                }
+            }
+        }
+    }
     println!("{}", json!({"runs": runs, "nontrivial_cuts": nontrivial, "passes": passes_total, "games": games.len()}));
 }
